@@ -187,6 +187,30 @@ def run_case(case):
             if idx != list(range(exp[1])) or len(res) != exp[1] or [c[2] for c in calls] != exp[2]:
                 viol.append({"what": "driver_iterations", "driver": "run_bldfm_timeseries", "met": met, "indices": idx,
                              "expected": exp[1], "label": label})
+            # the same series with entries that recur (wind direction coming back to an earlier value, a constant list): every step is
+            # still its own step - judged on the returned list (i-th entries, i-th timestamp or i), not on how often the solver ran
+            if exp[1] >= 2:
+                met_r = {f: (([v[0], v[1 % len(v)]] * len(v))[: len(v)] if k % 2 else [v[0]] * len(v)) if isinstance(v, list) and f != "timestamps" else v
+                         for f, v in met.items()}
+                exp_r = model(met_r)
+                try:
+                    cfg_r = parse_config_dict(dict(raw, met=met_r))
+                except Exception as e:  # noqa
+                    cfg_r = None
+                    if exp_r[0] == "ok":
+                        viol.append({"what": "rejected_consistent", "path": "parse", "met": met_r, "label": label + ",recurring entries", "exc": repr(e)[:120]})
+                if cfg_r is not None and exp_r[0] == "ok":
+                    iface.run_bldfm_single = stub
+                    try:
+                        res_r = iface.run_bldfm_timeseries(cfg_r, cfg_r.towers[0])
+                    finally:
+                        iface.run_bldfm_single = real_single_iface
+                    counters["driver_runs_recurring_entries"] = counters.get("driver_runs_recurring_entries", 0) + 1
+                    got_r = [(r.get("timestamp"), r.get("params")) for r in res_r]
+                    want_r = [(st["timestamp"], st) for st in exp_r[2]]
+                    if got_r != want_r:
+                        viol.append({"what": "driver_steps", "driver": "run_bldfm_timeseries", "met": met_r, "label": label + ",recurring entries",
+                                     "got_timestamps": [g[0] for g in got_r], "expected_timestamps": [w[0] for w in want_r]})
         # --- path 4: YAML + CLI
         if tier == "thorough" or k % 7 == 0:
             with tempfile.TemporaryDirectory(dir=".") as d:
